@@ -80,7 +80,7 @@ func callerSwitchOpt(ctx *core.Ctx, quick time.Duration) explore.Options {
 	if ctx.Thorough() {
 		bd, dl = 2, 5*time.Minute
 	}
-	return explore.Options{MaxBound: bd, SchedOnly: true, Allow: callerSwitch, MaxExecs: 200000, Deadline: dl}
+	return explore.Options{MaxBound: bd, SchedOnly: true, Allow: callerSwitch, Spread: true, MaxExecs: 200000, Deadline: dl}
 }
 
 // atOnceUnits: one unit per pair (with repetition) of the operations of property id.
@@ -119,7 +119,7 @@ func atOnceUnits(id string) []core.Unit {
 					wg.Wait()
 					return "[0]" + outs[0] + "[1]" + outs[1]
 				}
-				st := core.Explore(r, core.SchedSpec{Name: name, API: oa.name + " || " + ob.name, Check: lower(id) + ".at_once", Body: body, Expect: want, Mode: "bounded", Opt: callerSwitchOpt(ctx, 6*time.Second)})
+				st := core.Explore(r, core.SchedSpec{Name: name, API: oa.name + " || " + ob.name, Check: lower(id) + ".at_once", Body: body, Expect: want, Mode: "bounded", Opt: callerSwitchOpt(ctx, 12*time.Second)})
 				r.Nontrivial += int64(st.Complete)
 				r.Note("distinct_outcomes", len(st.Outcomes))
 			}})
@@ -425,6 +425,7 @@ func fuUnits(id string) []core.Unit {
 					seeds = append(seeds, seed{np, fmt.Sprintf("switch to caller %s at scheduling point %d", base.Enabled[i][alt], i)})
 				}
 			}
+			seeds = explore.Spread(seeds)
 			limit := 10 * time.Second
 			if sc.conf {
 				limit = 25 * time.Second
